@@ -1,6 +1,8 @@
 /* Bounded swap harness: a small symbolic world of stored MDD nodes with executable stubs (no contracts).
  * Everything the real swapAdjacentVariables calls outside itself is a stub that records what happened. */
-#define SW_NODES 4                              /* stored nodes before the swap */
+#ifndef SW_NODES
+#define SW_NODES 3                              /* stored nodes before the swap (quick tier: 2, thorough tier: 3) */
+#endif
 #define SW_MAXSZ 3                              /* variable sizes 2..SW_MAXSZ */
 #define SW_CAP   (1 + SW_NODES + SW_NODES * SW_MAXSZ)
 int         sw_lvl[SW_CAP];                     /* label (level) of each stored node; index 0 unused */
